@@ -1,7 +1,7 @@
 """C14 - environment variables beat files, assignment beats both, names are predictable."""
 from typing import Optional
 
-from cincoconfig import (BoolField, ChallengeField, DictField, IntField, ListField, Schema, SecureField,
+from cincoconfig import (BoolField, BytesField, ChallengeField, DictField, IntField, ListField, Schema, SecureField,
                          StringField)
 from cincoconfig.core import ValidationError
 
@@ -165,8 +165,10 @@ def env_precedence_string(nested: bool, fe_i: int, is_set: bool, val: str, doc: 
     return True
 
 
-KINDS = ("int", "bool", "list", "dict", "challenge", "challenge_default", "secure", "list_nodefault")
-VALUES = ("5", "x", "yes", "1,2", "0", "false", "0.0", "")
+KINDS = ("int", "bool", "list", "dict", "challenge", "challenge_default", "secure", "list_nodefault", "bytes_hex",
+         "bytes_b64")
+# (the last two look like the hex / base64 on-disk form of a bytes field: a variable is a VALUE, not a document leaf)
+VALUES = ("5", "x", "yes", "1,2", "0", "false", "0.0", "deadbeef", "aGVsbG8=", "")
 
 
 def _kind_field(kind: str):
@@ -186,6 +188,10 @@ def _kind_field(kind: str):
         return ChallengeField("md5", default="dflt")
     if kind == "secure":
         return SecureField(default="dflt")
+    if kind == "bytes_hex":
+        return BytesField(encoding="hex", default=b"dflt")
+    if kind == "bytes_b64":
+        return BytesField(encoding="base64", default=b"dflt")
     raise AssertionError(kind)
 
 
@@ -205,23 +211,25 @@ def _validated(kind: str, text: str):
         return ("ok", "challenge:" + text)
     if kind == "secure":
         return ("ok", text)
+    if kind in ("bytes_hex", "bytes_b64"):
+        return ("ok", text.encode())     # validation of a text for a bytes field: its UTF-8 bytes, no decoding
     raise AssertionError(kind)
 
 
 DOCS = {"int": 7, "bool": True, "list": [3], "list_nodefault": [3], "dict": {"d": 3}, "challenge": "docpw",
-        "challenge_default": "docpw", "secure": "docpw"}
+        "challenge_default": "docpw", "secure": "docpw", "bytes_hex": "00ff", "bytes_b64": "AP8="}
 
 
 @obligation(prop="C14", sites=("bound", "invalid"), stubs=("FakeEnviron",), regions=("container_or_hashed_default",),
             encodes=["cincoconfig.core.Field.__setdefault__", "cincoconfig.core.Config.load_tree"],
             budget={"quick": 120, "thorough": 300},
             examples=({"kind_i": 0, "val_i": 0},),
-            what="other field kinds (int, bool, typed list/dict, challenge with/without default, secure) bound to a "
+            what="other field kinds (int, bool, typed list/dict, challenge with/without default, secure, bytes hex/base64) bound to a "
                  "non-empty variable drawn from a menu: value == validated variable and a later load does not "
                  "override it, or construction fails with ValidationError naming the field")
 def env_precedence_kinds(kind_i: int, val_i: int) -> bool:
     """
-    pre: 0 <= kind_i < 8 and 0 <= val_i < 7
+    pre: 0 <= kind_i < 10 and 0 <= val_i < 9
     post: _
     """
     kind, text = _sel(KINDS, kind_i), _sel(VALUES, val_i)
